@@ -41,6 +41,7 @@ m("min-create-first", "_snapshot/min_max_value.py", "            if not self.cmp
 m("collection-dedupe-type", "_snapshot/collection_value.py", "            if item not in self._new_value:", "            if repr(item) not in map(repr, self._new_value) and len(self._new_value) < 3:", ["C01", "C05"], "`in` list drops the 4th member")
 
 
+m("tq-final-quote-twice", "_utils.py", " and string[-1] != extra:", ":", ["C12"], "revert of the double-escape fix (needs both triple quotes + final quote)")
 # ---- C02
 m("return-old-under-fix", "_snapshot/generic_value.py", "        if flags.fix or flags.create or flags.update or self._old_value is undefined:", "        if self._old_value is undefined:", ["C02", "C07"], "comparison answers the old result under create/fix: test aborts at first failing snapshot (asserting style)")
 m("addx-off", "_align.py", '            result += "x" * g[1]\n            i += 1', '            result += g[0] * g[1]', [], "never produce x (replace): equivalent w.r.t. the guaranteed set (informational)")
